@@ -17,6 +17,7 @@ import (
 	"os/exec"
 	"strings"
 	"sync"
+	"time"
 
 	"github.com/ethereum/go-ethereum/common"
 	"github.com/ethereum/go-ethereum/core/types"
@@ -231,14 +232,19 @@ func (c *Cashout) WaitForReceipt(ctx context.Context, h common.Hash) (uint64, er
 // receipt worker does), so a driver can wait for the worker without sleeping.
 type SubPub struct {
 	CashOut chan struct{}
+	mu      sync.Mutex
+	counts  map[string]int
 }
 
 var _ subscribe.SubPub = (*SubPub)(nil)
 
-func NewSubPub() *SubPub { return &SubPub{CashOut: make(chan struct{}, 64)} }
+func NewSubPub() *SubPub { return &SubPub{CashOut: make(chan struct{}, 64), counts: map[string]int{}} }
 
 func (s *SubPub) Subscribe(subscribe.INotifier, string, string, string) error { return nil }
 func (s *SubPub) Publish(ns, kind, param string, msg interface{}) error {
+	s.mu.Lock()
+	s.counts[kind]++
+	s.mu.Unlock()
 	if ns == "traffic" && kind == "cashOut" {
 		select {
 		case s.CashOut <- struct{}{}:
@@ -246,6 +252,26 @@ func (s *SubPub) Publish(ns, kind, param string, msg interface{}) error {
 		}
 	}
 	return nil
+}
+
+// Count of publications of a kind ("header", "trafficCheque", "cashOut").
+func (s *SubPub) Count(kind string) int {
+	s.mu.Lock()
+	defer s.mu.Unlock()
+	return s.counts[kind]
+}
+
+// Await waits (bounded) until `kind` has been published n times.  The service publishes from goroutines it
+// spawns and forgets; a driver that goes on before they have run lets them overlap the next call.
+func (s *SubPub) Await(kind string, n int, d time.Duration) bool {
+	end := time.Now().Add(d)
+	for s.Count(kind) < n {
+		if time.Now().After(end) {
+			return false
+		}
+		time.Sleep(20 * time.Microsecond)
+	}
+	return true
 }
 func (s *SubPub) PublishArray(string, string, string, []interface{}) error { return nil }
 
@@ -299,6 +325,13 @@ func (e *Emit) SetFail(f bool) {
 	e.mu.Lock()
 	e.Fail = f
 	e.mu.Unlock()
+}
+
+// Peek returns the log without clearing it.
+func (e *Emit) Peek() []Emitted {
+	e.mu.Lock()
+	defer e.mu.Unlock()
+	return append([]Emitted(nil), e.Log...)
 }
 
 // Take returns and clears the log.
@@ -512,12 +545,25 @@ func Chunked(scs []kit.Scenario, out *kit.Out) error {
 		if err := os.WriteFile(in, buf.Bytes(), 0o600); err != nil {
 			return err
 		}
-		cmd := exec.Command(os.Args[0], "exec", in, tr)
-		cmd.Env = append(os.Environ(), "VERIF_DRV_CHILD=1")
-		var stderr bytes.Buffer
-		cmd.Stderr = &stderr
-		if err := cmd.Run(); err != nil {
-			return fmt.Errorf("chunk %d-%d: %v: %s", lo, hi, err, stderr.String())
+		// a chunk whose process died is run again (twice at most): the services under test publish from
+		// unsynchronised goroutines and a crash of that kind is not what these drivers observe
+		for attempt := 1; ; attempt++ {
+			cmd := exec.Command(os.Args[0], "exec", in, tr)
+			cmd.Env = append(os.Environ(), "VERIF_DRV_CHILD=1")
+			var stderr bytes.Buffer
+			cmd.Stderr = &stderr
+			err := cmd.Run()
+			if err == nil {
+				break
+			}
+			msg := stderr.String()
+			if attempt >= 3 || !strings.Contains(msg, "goroutine ") {
+				if len(msg) > 3000 {
+					msg = msg[:3000]
+				}
+				return fmt.Errorf("chunk %d-%d: %v: %s", lo, hi, err, msg)
+			}
+			fmt.Fprintf(os.Stderr, "chunk %d-%d crashed (attempt %d), running it again: %.300s\n", lo, hi, attempt, msg)
 		}
 		data, err := os.ReadFile(tr)
 		if err != nil {
